@@ -8,6 +8,11 @@ props = [json.loads(l) for l in open(os.path.join(os.path.dirname(__file__), "pr
 ids = [p["id"] for p in props]
 hook_commits = subprocess.run(["git", "-C", "/repo", "log", "--format=%H %s", "--grep=^verif hooks:"],
                               stdout=subprocess.PIPE, text=True).stdout.strip().splitlines()
+def engines(c):
+    es = sorted(set(p.get("engine", c.get("engine")) for p in (c.get("parts") or [c])))
+    return "+".join(es)
+
+
 checks, na = [], []
 for pid in ids:
     if pid in PROPS:
@@ -19,7 +24,7 @@ for pid in ids:
             "thorough_cmd": "./check %s thorough" % pid,
             "evidence_file": "/verif/evidence/%s.json" % pid,
             "replay_cmd_template": "./check %s --replay {path}" % pid,
-            "engine": {"B": "bubble", "R": "hbfree", "B+R": "bubble+hbfree"}[c["engine"]],
+            "engine": {"B": "bubble", "R": "hbfree", "B+R": "bubble+hbfree"}[engines(c)],
             "level_claimed": {"category": c["level"], "text": t["level_text"], "design_ref": t["design_ref"]},
             "level_note": t["level_note"],
             "technique": t["technique"],
@@ -41,10 +46,10 @@ manifest = {
     },
     "engines": [
         {"name": "bubble", "path": "/verif/harness/sim/bubble.go",
-         "serves_properties": [p for p in ids if p in PROPS and "B" in PROPS[p]["engine"]],
+         "serves_properties": [p for p in ids if p in PROPS and "B" in engines(PROPS[p])],
          "kind_free_text": "deterministic simulation: seeded serialising goroutine scheduler inside testing/synctest over build-tagged yield hooks; fault injection through Resolver/Reader/Reporter/Context/Opener/Query seams; rapid generates and shrinks workload+fault plan+schedule tape"},
         {"name": "hbfree", "path": "/verif/harness/sim/hbfree.go",
-         "serves_properties": [p for p in ids if p in PROPS and "R" in PROPS[p]["engine"]],
+         "serves_properties": [p for p in ids if p in PROPS and "R" in engines(PROPS[p])],
          "kind_free_text": "deterministic simulation under the Go race detector: seeded serialising scheduler whose hand-offs are invisible to TSan (plain words in go:norace functions), so unsynchronised accesses are reported even in serial schedules; porcupine linearizability check of recorded histories"},
     ],
     "checks": checks,
